@@ -34,12 +34,14 @@ theorem setWaiting_get {tasks : List Task} {id seq : Nat} {t : Task} {q k : Nat}
   have hp0 : wtPut t = 0 := wtPut_get hk
   constructor
   · apply sum_map_upd_drop wtGet _ tasks t 2 _ ht
-    · simp only [hid, beq_self_eq_true, if_true]; omega
+    · have : (t.id == id) = true := by simp [hid]
+      simp only [this, if_true]; omega
     · intro x hx
       by_cases hx' : x.id = id
       · have : x = t := ClientQuery.uniq_of_nodup tasks hn x t hx ht (hx'.trans hid.symm)
         subst this
-        simp only [hx', beq_self_eq_true, if_true]; omega
+        have : (x.id == id) = true := by simpa using hx'
+        simp only [this, if_true]; omega
       · have : (x.id == id) = false := by simpa using hx'
         simp only [this, Bool.false_eq_true, if_false]; exact Nat.le_refl _
   · apply sum_map_upd_le
@@ -47,7 +49,8 @@ theorem setWaiting_get {tasks : List Task} {id seq : Nat} {t : Task} {q k : Nat}
     by_cases hx' : x.id = id
     · have : x = t := ClientQuery.uniq_of_nodup tasks hn x t hx ht (hx'.trans hid.symm)
       subst this
-      simp only [hx', beq_self_eq_true, if_true]; omega
+      have : (x.id == id) = true := by simpa using hx'
+      simp only [this, if_true]; omega
     · have : (x.id == id) = false := by simpa using hx'
       simp only [this, Bool.false_eq_true, if_false]; exact Nat.le_refl _
 
@@ -67,16 +70,19 @@ theorem setWaiting_put {tasks : List Task} {id seq : Nat} {t : Task} {bs : List 
     by_cases hx' : x.id = id
     · have : x = t := ClientQuery.uniq_of_nodup tasks hn x t hx ht (hx'.trans hid.symm)
       subst this
-      simp only [hx', beq_self_eq_true, if_true]; omega
+      have : (x.id == id) = true := by simpa using hx'
+      simp only [this, if_true]; omega
     · have : (x.id == id) = false := by simpa using hx'
       simp only [this, Bool.false_eq_true, if_false]; exact Nat.le_refl _
   · apply sum_map_upd_drop wtPut _ tasks t 2 _ ht
-    · simp only [hid, beq_self_eq_true, if_true]; omega
+    · have : (t.id == id) = true := by simp [hid]
+      simp only [this, if_true]; omega
     · intro x hx
       by_cases hx' : x.id = id
       · have : x = t := ClientQuery.uniq_of_nodup tasks hn x t hx ht (hx'.trans hid.symm)
         subst this
-        simp only [hx', beq_self_eq_true, if_true]; omega
+        have : (x.id == id) = true := by simpa using hx'
+        simp only [this, if_true]; omega
       · have : (x.id == id) = false := by simpa using hx'
         simp only [this, Bool.false_eq_true, if_false]; exact Nat.le_refl _
 
@@ -159,6 +165,13 @@ theorem callGets_append (a b : List Out) : callGets (a ++ b) = callGets a ++ cal
 theorem callPuts_append (a b : List Out) : callPuts (a ++ b) = callPuts a ++ callPuts b := by
   simp [callPuts]
 
+theorem pollTasks_cons (s : Client.State) (seq id : Nat) (ids : List Nat) :
+    Client.pollTasks s seq (id :: ids) =
+      ((Client.pollTasks (Client.pollTask s seq id).1 (Client.pollTask s seq id).2.1 ids).1,
+       (Client.pollTasks (Client.pollTask s seq id).1 (Client.pollTask s seq id).2.1 ids).2.1,
+       (Client.pollTask s seq id).2.2 ++
+         (Client.pollTasks (Client.pollTask s seq id).1 (Client.pollTask s seq id).2.1 ids).2.2) := rfl
+
 theorem pollTasks_wt (ids : List Nat) : ∀ (s : Client.State) (seq : Nat), (s.tasks.map (·.id)).Nodup →
     gW (Client.pollTasks s seq ids).1.tasks + (callGets (Client.pollTasks s seq ids).2.2).length ≤ gW s.tasks ∧
     (gW (Client.pollTasks s seq ids).1.tasks + (callGets (Client.pollTasks s seq ids).2.2).length = gW s.tasks →
@@ -170,7 +183,8 @@ theorem pollTasks_wt (ids : List Nat) : ∀ (s : Client.State) (seq : Nat), (s.t
     intro s seq hn
     obtain ⟨a0, a1, a2, a3⟩ := pollTask_wt s seq id hn
     obtain ⟨b1, b2, b3⟩ := ih (Client.pollTask s seq id).1 (Client.pollTask s seq id).2.1 a0
-    simp only [Client.pollTasks, callGets_append, callPuts_append, List.length_append]
+    rw [pollTasks_cons]
+    simp only [callGets_append, callPuts_append, List.length_append]
     refine ⟨by omega, ?_, by omega⟩
     intro h
     obtain ⟨c1, c2⟩ := a2 (by omega)
